@@ -23,6 +23,10 @@ STRATEGIES = ("PiecewiseConstantRFA", "CubicSplineRFA", "LinearFixedRFA", "Linea
 ADAPTIVE = ("LinearAdaptiveRFA", "ExpAdaptiveRFA")
 METHODS = ("linear", "constant", "cubic", "spline")
 TRENDS = {
+    # what the function returns belongs to the caller's side as much as what it is given: "identity" hands its very
+    # argument back, "branch" is valid for the documented per-sample (scalar) call only
+    "identity": lambda a, b: (lambda x: x),
+    "branch": lambda a, b: (lambda x: a if x > b else 0.0),
     "zero": lambda a, b: (lambda x: 0.0 * x),
     "const": lambda a, b: (lambda x: a + 0.0 * x),
     "linear": lambda a, b: (lambda x: a * x + b),
@@ -147,6 +151,10 @@ def _exact_any(a, b):
     if a is None or b is None:
         return a is None and b is None
     try:
+        # "exactly as they were" includes the dtype: int64 silently turned into float64 compares equal value by value,
+        # yet it is another series (lossy above 2^53, and later integer-preserving operations behave differently)
+        if isinstance(a, np.ndarray) and isinstance(b, np.ndarray) and a.dtype != b.dtype:
+            return False
         return exact(a, b)
     except Exception:
         return False
@@ -1165,7 +1173,9 @@ class Machine:
             i = next(i for i in range(3) if not same_snapshot([before[i]], [after[i]]))
             self.fail("V2/state-changed-by-rejected-request", key,
                       f"{d['text']} raised ValueError but changed the {names[i]} series from ({brief(before[i][0])}, "
-                      f"{brief(before[i][1])}) to ({brief(after[i][0])}, {brief(after[i][1])})")
+                      f"{brief(before[i][1])}) to ({brief(after[i][0])}, {brief(after[i][1])})"
+                      f"; dtypes {[str(getattr(v, 'dtype', type(v).__name__)) for v in before[i]]} -> "
+                      f"{[str(getattr(v, 'dtype', type(v).__name__)) for v in after[i]]}")
         self.secondary = [s for s in self.secondary if s[0] != "twin"] + [("twin", twin)]
         self.last_invalid = key
 
